@@ -291,6 +291,19 @@ def sem : Sem Store Req Resp where
   exec := exec
   errResp := fun _ _ => .err .other
 
+/-- The API server whose refused calls are answered with an error of class `e` (NotFound, AlreadyExists,
+Conflict, or anything else: Forbidden, Invalid, Unauthorized, TooManyRequests, a timeout, a transport error, a
+context deadline are all `.other` – no step distinguishes them). `sem` is the case `.other`. -/
+def semK (e : Err) : Sem Store Req Resp where
+  exec := exec
+  errResp := fun _ _ => .err e
+
+/-- The API server whose refused calls are answered with ANY reply whatsoever (`er`: any class of error, even a
+made-up success or a made-up object). The safety theorems of the last section of Props/C20.lean hold for every `er`. -/
+def semAny (er : Outcome → Req → Resp) : Sem Store Req Resp where
+  exec := exec
+  errResp := er
+
 /-! ### programs -/
 
 inductive Res where
@@ -717,9 +730,28 @@ writes into an `Xp.Env`; `runP` is the run under that interference and `run` is 
 peer (`Xp.runE_none`). `peerInit` is the peer we are most interested in: another initialiser that runs
 its own step list to completion right before our call `k0`. -/
 
+/-- One out-of-band change of an object by ANOTHER writer (a concurrent initialiser, a user, another
+controller, the garbage collector): `put*` replaces the whole object (created when absent), `del*` removes it,
+`set*` sets / removes a singleton. -/
+inductive PeerOp where
+  | delSecret (n : String)
+  | putPkg (p : Pkg)
+  | delPkg (k : PKind) (n : String)
+  | putCrd (c : Crd)
+  | delCrd (n : String)
+  | putWhc (w : Whc)
+  | delWhc (k : WKind) (n : String)
+  | putCr (c : Cr)
+  | delCr (crd n : String)
+  | setLock (v : Option Int)
+  | setSc (v : Option (String × Int))
+  | setDrc (v : Option Int)
+  deriving Repr, Inhabited
+
 structure PeerWrite where
   before : Nat
   secrets : List Secret
+  ops : List PeerOp := []
   deriving Repr, Inhabited
 
 def upsertSecret (s : Store) (x : Secret) : Store :=
@@ -727,8 +759,38 @@ def upsertSecret (s : Store) (x : Secret) : Store :=
   | some _ => { s with secrets := s.secrets.map fun y => if y.name = x.name then x else y }
   | none => { s with secrets := s.secrets ++ [x] }
 
+def applyOp (s : Store) : PeerOp → Store
+  | .delSecret n => { s with secrets := s.secrets.filter (·.name ≠ n) }
+  | .putPkg p =>
+    match findPkg s p.kind p.name with
+    | some _ => { s with pkgs := s.pkgs.map fun q => if q.kind = p.kind ∧ q.name = p.name then p else q }
+    | none => { s with pkgs := s.pkgs ++ [p] }
+  | .delPkg k n => { s with pkgs := s.pkgs.filter fun q => ¬ (q.kind = k ∧ q.name = n) }
+  | .putCrd c =>
+    match findCrd s c.name with
+    | some _ => { s with crds := s.crds.map fun d => if d.name = c.name then c else d }
+    | none => { s with crds := s.crds ++ [c] }
+  | .delCrd n => { s with crds := s.crds.filter (·.name ≠ n) }
+  | .putWhc w =>
+    match findWhc s w.kind w.name with
+    | some _ => { s with whcs := s.whcs.map fun v => if v.kind = w.kind ∧ v.name = w.name then w else v }
+    | none => { s with whcs := s.whcs ++ [w] }
+  | .delWhc k n => { s with whcs := s.whcs.filter fun v => ¬ (v.kind = k ∧ v.name = n) }
+  | .putCr c =>
+    if s.crs.any (fun d => d.crd = c.crd ∧ d.name = c.name) then
+      { s with crs := s.crs.map fun d => if d.crd = c.crd ∧ d.name = c.name then c else d }
+    else { s with crs := s.crs ++ [c] }
+  | .delCr crd n => { s with crs := s.crs.filter fun d => ¬ (d.crd = crd ∧ d.name = n) }
+  | .setLock v => { s with lock := v }
+  | .setSc v => { s with sc := v }
+  | .setDrc v => { s with drc := v }
+
+/-- the writes of one window: the secrets first, then the other objects -/
+def PeerWrite.apply (w : PeerWrite) (s : Store) : Store :=
+  w.ops.foldl applyOp (w.secrets.foldl upsertSecret s)
+
 def peerEnv (ws : List PeerWrite) : Env Store := fun k s =>
-  ws.foldl (fun s w => if w.before = k then w.secrets.foldl upsertSecret s else s) s
+  ws.foldl (fun s w => if w.before = k then w.apply s else s) s
 
 /-- a peer that runs its own (fault-free, complete) initialisation right before our call `k0` -/
 def peerInit (g : Generator) (steps : List Step) (n k0 : Nat) : Env Store := fun k s =>
